@@ -1,0 +1,25 @@
+//go:build verif
+
+package validate
+
+import (
+	"github.com/cedar-policy/cedar-go/types"
+	"github.com/cedar-policy/cedar-go/x/exp/ast"
+)
+
+// VerifTypeOf runs the expression type checker in one request environment and returns the name of the inferred type, or the
+// type-checking error (verification harness only, build tag verif).
+func (v *Validator) VerifTypeOf(principal types.EntityType, action types.EntityUID, resource types.EntityType, expr ast.IsNode) (string, error) {
+	env := requestEnv{principalType: principal, actionUID: action, resourceType: resource}
+	if a, ok := v.schema.Actions[action]; ok && a.AppliesTo != nil {
+		env.contextType = schemaRecordToCedarType(a.AppliesTo.Context)
+	}
+	t, _, err := v.typeOfExpr(&env, expr, newCapabilitySet())
+	if err != nil {
+		return "", err
+	}
+	if t == nil {
+		return "<nil>", nil
+	}
+	return cedarTypeName(t), nil
+}
